@@ -11,6 +11,27 @@ NOTE_COMMON = ("Theorems are about a hand-written Lean model; the model is tied 
                "float rounding measured not proved. Axioms: propext, Classical.choice, Quot.sound only.")
 
 CLAIMS = {
+ "C03": dict(
+   text="Partial proof (Lean 4) about the model of _target_utility / _assign_utility / _maximise_utility_duty (tied to the code on "
+        "1500 synthetic load profiles x utility ladders per run, all duties compared): duties_nonneg_and_bounded (for every "
+        "segment, ladder and side the duties are >= 0 and never sum to more than the profile maximum, by induction over the "
+        "ladder), unreachable_gets_zero (a utility whose supply lies beyond every row of its segment gets nothing). The closure "
+        "clause (duties sum to Qh / Qc; defaults added when needed) is NOT a theorem: it is false of the code in one recorded way "
+        "(known finding C03-cold-sufficiency-sign, pinned by 6 e2e workbooks) and is decided by the oracle on every zone of 300+ "
+        "random problems x utility sets per run (defaults only, ladders inside/outside the range, too-warm cold / too-cold hot "
+        "utilities), which also checks the per-utility total-process sums and reachability.",
+   technique="Lean 4 proof (ladder induction, partial) + correspondence testing + closure/reachability oracle on service output",
+   design="§6 C03"),
+ "C04": dict(
+   text="Proof (Lean 4) of the specification side, replacing the statement's independent LP by a closed form: for ANY monotone "
+        "pocket-free profile and ANY ascending ladder of isothermal levels the lowest-grade-first ladder is feasible at every "
+        "temperature (ladder_feasible), non-negative (ladder_nonneg) and each level carries the largest feasible duty "
+        "(ladder_maximal); plus the C03 bounds on the code's assignment model. That the code's duties equal the ladder, and that "
+        "0 <= H_net_ut <= H_net_actual on every row, is NOT proved: it is decided by the oracle on every zone of 300+ random "
+        "problems x ladders per run (row-wise feasibility on the shifted table; an independently computed lowest-grade-first "
+        "optimum for every ladder of isothermal levels).",
+   technique="Lean 4 proof of the reference optimum (closed-form ladder) + feasibility/optimality oracle on service output + correspondence",
+   design="§6 C04"),
  "C20": dict(
    text="Proof (Lean 4 + Mathlib real analysis). Formulas are written once over an abstract record of operations and instantiated "
         "with Float (driver, compared with the code to 1e-9 on 1100+ points per run) and with the reals (theorems): "
